@@ -256,6 +256,10 @@ def check_property(pid, tier="quick", seed=0, out=sys.stdout):
         samples.append({"id": o.oid, "kind": o.kind, "result": o.result, "backend": o.backend, "time_s": round(o.time, 4),
                         "smt2_bytes": len(o.smt2 or ""), "path_condition_size": len(o.pc), "goal": str(o.goal)[:300]})
     level = "proof" if (n_obl and n_dis == n_obl and not undecided and not crashes) else "other"
+    b_evals = sum(int(r.get("evaluations", 0) or 0) for r in bounded_reports)
+    b_distinct = sum(int(r.get("distinct_nontrivial", 0) or 0) for r in bounded_reports)
+    if n_obl == 0 and bounded_reports:
+        level = "exploration"  # nothing was proved for this property: bounded stand-ins only
     ev = {
         "property_id": pid,
         "tier": tier,
@@ -273,11 +277,15 @@ def check_property(pid, tier="quick", seed=0, out=sys.stdout):
             "by_kind": dict(Counter(o.kind.split(".")[0] if o.kind.startswith("inv") else o.kind for o in all_obs)),
             "solver_time_s": {"sum": round(sum(o.time for o in all_obs), 3), "max": round(max([o.time for o in all_obs] or [0]), 3)},
             "generation_time_s": round(t_gen, 3),
-            "samples": samples,
+            "samples": samples or [{"bounded_report": r.get("function"), "bound": r.get("bound"), "evaluations": r.get("evaluations")} for r in bounded_reports],
             "extraction_drops": sorted({d for _, r in results for d in r.drops} | {"type annotations", "docstrings and comments"}),
             "undecided": undecided,
             "checker_failures": crashes,
             "bounded": bounded_reports,
+            **({"evaluations": b_evals, "distinct_nontrivial": b_distinct,
+                "rule": "bounded stand-ins: seeded random generation within the bound stated by each report; a case is distinct when its "
+                        "generated input (listing / history / operation sequence) differs, as counted by the generator",
+                } if bounded_reports else {}),
             "known_findings": [h["id"] for h, _, _ in known_hits],
             "violations": [o.oid for o, _, _ in violations],
             "explanation": "obligations generated from the AST of the real functions in /repo/src and discharged by z3/cvc5; "
